@@ -583,6 +583,10 @@ def _cfg_finding(sc, last, extra, missing):
                 callee_blk = L.Listing.from_scenario(sc).label_block.get(md["patch"][5:])
                 if callee_blk and sc.bspec[callee_blk].get("func") == func:
                     return "C03-recursive-call-in-ret-block"
+    esyms = {s for b in sc.bspec.values() for s in b.get("esyms", [])}
+    if last.kind in ("jmp", "jcc", "call") and last.target in esyms and extra and missing and \
+            {x[0] for x in extra} == {x[0] for x in missing} <= {"Branch", "Call"}:
+        return "C03-branch-to-at_end-symbol"
     if not missing and extra and all(x[0] == "Return" and x[1] == "proxy" for x in extra) and last.kind == "ret":
         for md in sc.spec.get("mods", []):
             if md["op"] == "replace" and str(md.get("patch", "")).startswith("call:"):
@@ -869,4 +873,375 @@ def make_check_C08(tier):
         "oracle rule R9: structural directives must survive in place; a non-structural directive may be dropped when an "
         "instruction adjacent to its boundary is deleted; a complete procedure inside a wholly deleted block may be dropped "
         "as a unit; a patch's own directives are discarded when the insertion point is outside every procedure"]
+    return chk
+
+
+# ---------------------------------------------------------------------------
+# C09 / C11: self-composition (two copies of one symbolic scenario)
+# ---------------------------------------------------------------------------
+def snapshot(sc, temp_exact):
+    """Flatten a rewritten module to listing vocabulary (no UUIDs)."""
+    from gtirb_rewriting import _auxdata, _auxdata_offsetmap
+    m = sc.module
+    bases = _bases(sc)
+    snap = {"sections": {}, "symbols": {}, "blocks": [], "edges": [], "exprs": [], "aux": {}, "funcs": []}
+
+    def bpos(b):
+        return (b.section.name, bases[b.byte_interval] + b.offset)
+
+    def norm(name):
+        if temp_exact or not name.startswith(".L"):
+            return name
+        return name.rsplit("_", 1)[0]
+
+    proxy_name = {}
+    for s in m.symbols:
+        if isinstance(s.referent, gtirb.ProxyBlock):
+            proxy_name.setdefault(s.referent, []).append(norm(s.name))
+    for sect in sc.sections:
+        rope, _ = sc.flatten_bytes(sect)
+        snap["sections"][sect.name] = rope
+    for s in m.symbols:
+        ref = s.referent
+        if isinstance(ref, gtirb.ByteBlock):
+            sec, p = bpos(ref)
+            snap["symbols"][norm(s.name)] = ("block", sec, p + (ref.size if s.at_end else 0))
+        else:
+            snap["symbols"][norm(s.name)] = ("proxy" if isinstance(ref, gtirb.ProxyBlock) else "none",)
+    for b in m.byte_blocks:
+        sec, p = bpos(b)
+        snap["blocks"].append((sec, p, b.size, type(b).__name__))
+
+    def node(n):
+        if isinstance(n, gtirb.ProxyBlock):
+            return ("proxy", tuple(sorted(proxy_name.get(n, []))))
+        sec, p = bpos(n)
+        return ("block", sec, p, n.size)
+
+    for e in sc.ir.cfg:
+        snap["edges"].append((node(e.source), node(e.target), e.label.type.name, bool(e.label.conditional), bool(e.label.direct)))
+    for bi in m.byte_intervals:
+        for k, expr in bi.symbolic_expressions.items():
+            snap["exprs"].append((bi.section.name, bases[bi] + k, type(expr).__name__,
+                                  tuple(norm(x.name) for x in expr.symbols), getattr(expr, "offset", None),
+                                  tuple(sorted(str(a) for a in expr.attributes))))
+    for tdef in (_auxdata_offsetmap.comments, _auxdata_offsetmap.padding, _auxdata_offsetmap.symbolic_expression_sizes,
+                 _auxdata_offsetmap.cfi_directives):
+        tbl = tdef.get(m)
+        rows = []
+        if tbl is not None:
+            for elem in list(tbl.node_keys()):
+                for disp, value in tbl[elem].items():
+                    if isinstance(elem, gtirb.ByteInterval):
+                        rows.append((elem.section.name, bases[elem] + disp, _plain(value)))
+                    elif elem.byte_interval is not None:
+                        rows.append((elem.section.name, bases[elem.byte_interval] + elem.offset + disp, _plain(value)))
+                    else:
+                        rows.append(("<detached>", disp, _plain(value)))
+        snap["aux"][tdef.name] = rows
+    fb = _auxdata.function_blocks.get(m) or {}
+    fe = _auxdata.function_entries.get(m) or {}
+    fn = _auxdata.function_names.get(m) or {}
+    for u, blocks in fb.items():
+        snap["funcs"].append((norm(fn[u].name) if u in fn else None,
+                              [bpos(b) + (b.size,) for b in blocks], [bpos(b) for b in fe.get(u, ())]))
+    return snap
+
+
+def _plain(v):
+    if isinstance(v, gtirb.Symbol):
+        return "sym:" + v.name
+    if isinstance(v, (list, tuple)):
+        return tuple(_plain(x) for x in v)
+    import uuid as _u
+    if isinstance(v, _u.UUID):
+        return "uuid"
+    return v
+
+
+def _same_tuple(eng, a, b):
+    """Are two flattened tuples provably equal (positions are engine ints)?"""
+    if isinstance(a, (tuple, list)) and isinstance(b, (tuple, list)):
+        return len(a) == len(b) and all(_same_tuple(eng, x, y) for x, y in zip(a, b))
+    if core.is_sym(a) or core.is_sym(b) or (isinstance(a, int) and isinstance(b, int) and not isinstance(a, bool)):
+        return eng.must(a == b)
+    return a == b
+
+
+def _same_multiset(eng, xs, ys, what):
+    ys = list(ys)
+    eng.check(len(xs) == len(ys), "%s: %d vs %d entries" % (what, len(xs), len(ys)))
+    for x in xs:
+        hit = next((i for i, y in enumerate(ys) if _same_tuple(eng, x, y)), None)
+        if hit is None:
+            eng.fail("%s: %r has no counterpart" % (what, x), category=what)
+        del ys[hit]
+
+
+def compare_snapshots(eng, a, b, label):
+    for name in a["sections"]:
+        if eng.sym:
+            rope_equal_check(eng, a["sections"][name], b["sections"][name], "%s bytes of %s" % (label, name))
+        else:
+            eng.check(a["sections"][name] == b["sections"][name], "%s bytes of %s differ" % (label, name))
+    eng.check(set(a["symbols"]) == set(b["symbols"]), "%s symbol names differ: %s" % (
+        label, sorted(set(a["symbols"]) ^ set(b["symbols"]))))
+    for n, v in a["symbols"].items():
+        eng.check(_same_tuple(eng, v, b["symbols"][n]), "%s symbol %s designates different places" % (label, n))
+    _same_multiset(eng, a["blocks"], b["blocks"], label + " block boundaries")
+    _same_multiset(eng, a["edges"], b["edges"], label + " CFG edges")
+    _same_multiset(eng, a["exprs"], b["exprs"], label + " symbolic expressions")
+    for t in a["aux"]:
+        _same_multiset(eng, a["aux"][t], b["aux"].get(t, []), label + " aux table " + t)
+    fa = sorted(a["funcs"], key=lambda f: str(f[0]))
+    fb_ = sorted(b["funcs"], key=lambda f: str(f[0]))
+    eng.check([f[0] for f in fa] == [f[0] for f in fb_], label + " function sets differ")
+    for x, y in zip(fa, fb_):
+        _same_multiset(eng, x[1], y[1], label + " functionBlocks of %s" % x[0])
+        _same_multiset(eng, x[2], y[2], label + " functionEntries of %s" % x[0])
+
+
+def batch_order(sc):
+    """Modification indices in the order a single apply() performs them."""
+    order_blocks = [b["id"] for s in sc.spec["sections"] for b in s["blocks"]]
+    mods = list(enumerate(sc.spec.get("mods", [])))
+    return sorted(mods, key=lambda im: (order_blocks.index(im[1]["blk"]), im[1]["at"], im[0]))
+
+
+def h_batch_vs_single(eng, spec):
+    """C09: one apply() == one context per modification (and cache monitors)."""
+    import gtirb_functions
+    from gtirb_rewriting import RewritingContext
+    eng.reuse_vars = True
+    a = srh.Scenario(eng, spec)
+    a.register()
+    mon = CacheMonitor(a)
+    try:
+        with mon:
+            a.apply()
+    except AssertionError as ex:
+        if "modifications overlap" in str(ex) or known_crash(spec, ex):
+            raise core.Abort()
+        raise
+    b = srh.Scenario(eng, spec)
+    # one context per modification in address order (same-offset requests in registration order); each request is
+    # located again by its listing position in the current IR
+    shifts = {}
+    prev_key = None
+    for mi, md in batch_order(b):
+        sect = b.blocks[md["blk"]].section if b.blocks[md["blk"]].byte_interval is not None else \
+            next(s for s in b.sections if s.name == a.model.block_section[md["blk"]])
+        p0 = b.orig_block_pos[md["blk"]] + b.boundary(md["blk"], md["at"])
+        ln = (b.boundary(md["blk"], md["to"]) - b.boundary(md["blk"], md["at"])) if "to" in md else 0
+        natoms = len(b.atoms[md["blk"]])
+        key = (md["blk"], md["at"])
+        prefer_end = (md["at"] == natoms and md["op"] == "insert") or (prev_key == key and md["op"] == "insert")
+        prev_key = key
+        shift = shifts.get(sect.name, 0)
+        blk, off = locate(b, sect, p0 + shift, ln, prefer_end)
+        before = _section_size(b, sect)
+        b.functions = gtirb_functions.Function.build_functions(b.module) if b.func_uuids else []
+        b.register(only=mi, located=(blk, off, ln))
+        try:
+            b.apply()
+        except AssertionError as ex:
+            if "modifications overlap" in str(ex):
+                raise core.Abort()
+            raise
+        shifts[sect.name] = shift + (_section_size(b, sect) - before)
+    b.spec = spec
+    compare_snapshots(eng, snapshot(a, False), snapshot(b, False), "C09 batch vs one-at-a-time:")
+
+
+def _section_size(sc, sect):
+    t = 0
+    for bi in sect.byte_intervals:
+        t = t + bi.size
+    return t
+
+
+def locate(sc, sect, pos, ln, prefer_end):
+    """(block, offset) of listing position pos in the current IR of sc."""
+    eng = sc.eng
+    _, bases = sc.flatten_bytes(sect)
+    cands = []
+    for blk in sect.byte_blocks:
+        start = bases[blk.byte_interval] + blk.offset
+        if eng.must(And(start <= pos, pos + ln <= start + blk.size)):
+            cands.append((blk, start))
+    eng.check(len(cands) > 0, "C09 harness: no block covers listing position of a request")
+    nonempty = [(b, s) for (b, s) in cands if not eng.must(b.size == 0)] or cands
+    if prefer_end:
+        ends = [(b, s) for (b, s) in nonempty if eng.must(s + b.size == pos)]
+        if ends:
+            return ends[0][0], pos - ends[0][1]
+    starts = [(b, s) for (b, s) in nonempty if eng.must(s == pos)]
+    if starts and not prefer_end:
+        return starts[0][0], 0
+    b, s = nonempty[0]
+    return b, pos - s
+
+
+class CacheMonitor:
+    """Wraps rewriting.insert / rewriting.delete / RewritingContext._invoke_patch (module attributes, no source
+    change) and compares the rewrite caches with the IR after every step."""
+
+    def __init__(self, sc):
+        self.sc = sc
+        self.steps = 0
+
+    def __enter__(self):
+        import gtirb_rewriting.rewriting as RW
+        self.RW = RW
+        self.orig = (RW.insert, RW.delete, RW.prepare_for_rewriting)
+        mon = self
+
+        def insert(cache, *a, **kw):
+            r = mon.orig[0](cache, *a, **kw)
+            mon.after_step(cache, "insert")
+            return r
+
+        def delete(cache, *a, **kw):
+            r = mon.orig[1](cache, *a, **kw)
+            mon.after_step(cache, "delete")
+            return r
+
+        RW.insert, RW.delete = insert, delete
+        import contextlib
+        orig_mmc = RW.make_modify_cache
+        self.orig_mmc = orig_mmc
+        self.cache = None
+
+        @contextlib.contextmanager
+        def mmc(module, functions):
+            with orig_mmc(module, functions) as c:
+                mon.cache = c
+                yield c
+
+        RW.make_modify_cache = mmc
+        ctx = self.sc.ctx
+        inner = ctx._invoke_patch
+
+        def invoke(patch, actual_block, actual_offset, context, **kw):
+            mon.before_patch(getattr(patch, "_symx_text", ""))
+            return inner(patch, actual_block, actual_offset, context, **kw)
+
+        ctx._invoke_patch = invoke
+        return self
+
+    def __exit__(self, *exc):
+        self.RW.insert, self.RW.delete = self.orig[0], self.orig[1]
+        self.RW.make_modify_cache = self.orig_mmc
+        return False
+
+    # ---- ground truth ---------------------------------------------------------
+    def true_order(self, sect):
+        """Blocks of a section in listing order while intervals are split: original interval order, then offset."""
+        ivs = sorted(sect.byte_intervals, key=lambda bi: self.iv_rank.get(bi, 1 << 30))
+        out = []
+        for bi in ivs:
+            out += sorted(bi.blocks, key=lambda b: (b.offset, b.size != 0))
+        return out
+
+    def after_step(self, cache, what):
+        from gtirb_rewriting import _auxdata
+        eng = self.sc.eng
+        m = self.sc.module
+        self.steps += 1
+        # function of a block
+        fb = _auxdata.function_blocks.get(m) or {}
+        inv = {}
+        for u, blocks in fb.items():
+            for b in blocks:
+                inv[b] = u
+        live = {b for b in m.code_blocks}
+        cached = {b: u for b, u in cache.functions_by_block.items() if b in live}
+        eng.check(cached == {b: u for b, u in inv.items() if b in live},
+                  "C09 after %s #%d: functions_by_block disagrees with functionBlocks" % (what, self.steps))
+        # return edges of a block
+        truth = {}
+        for e in m.ir.cfg:
+            if e.label.type == gtirb.Edge.Type.Return:
+                truth.setdefault(e.source, set()).add(e)
+        for b in live:
+            eng.check(cache.return_cache.block_return_edges(b) == truth.get(b, set()),
+                      "C09 after %s #%d: return-edge cache disagrees with the CFG" % (what, self.steps))
+            eng.check(cache.return_cache.any_return_edges(b) == bool(truth.get(b)),
+                      "C09 after %s #%d: any_return_edges disagrees with the CFG" % (what, self.steps))
+        # neighbouring blocks: adjacent_blocks must be mutually consistent and cover exactly the live blocks
+        for sect in m.sections:
+            blocks = list(sect.byte_blocks)
+            heads = [b for b in blocks if cache.adjacent_blocks(b)[0] is None]
+            eng.check(len(heads) == (1 if blocks else 0), "C09 after %s #%d: block ordering has %d heads" % (what, self.steps, len(heads)))
+            seen = []
+            cur = heads[0] if heads else None
+            while cur is not None and len(seen) <= len(blocks):
+                seen.append(cur)
+                nxt = cache.adjacent_blocks(cur)[1]
+                if nxt is not None:
+                    eng.check(cache.adjacent_blocks(nxt)[0] is cur, "C09 block ordering is not a consistent doubly linked list")
+                cur = nxt
+            eng.check(set(seen) == set(blocks) and len(seen) == len(blocks),
+                      "C09 after %s #%d: block ordering does not list exactly the section's blocks" % (what, self.steps))
+            # inside one byte interval the cached order must follow offsets
+            for x, y in zip(seen, seen[1:]):
+                if x.byte_interval is y.byte_interval:
+                    eng.check(x.offset + x.size <= y.offset if core.is_sym(x.offset) or True else True,
+                              "C09 after %s #%d: cached block order contradicts offsets" % (what, self.steps))
+
+    def referent_readonly(self, cache, sym):
+        """What ReferenceCache.get_referent would return, without mutating the cache."""
+        rc = cache.reference_cache
+        node = rc._referents.get(sym)
+        if node is None:
+            return sym.referent
+        while not isinstance(node.parent, gtirb.Block):
+            node = node.parent
+        return node.parent
+
+    def before_patch(self, text):
+        """A component that reads the IR directly (the assembler resolving the labels a patch names) must see the
+        referent the reference cache would report."""
+        if self.cache is None:
+            return
+        import re
+        eng = self.sc.eng
+        names = set(re.findall(r"[A-Za-z_.][A-Za-z0-9_.]*", text))
+        for s in self.sc.module.symbols:
+            if s.name not in names:
+                continue
+            want = self.referent_readonly(self.cache, s)
+            eng.check(s.referent is want, "C09 before a patch is assembled, symbol %s reads referent %r directly but the "
+                      "reference cache reports %r" % (s.name, s.referent, want), finding=self.stale_finding(s), symbol=s.name)
+
+    def stale_finding(self, sym):
+        # a label whose block an earlier modification of the same apply() deleted entirely
+        for md in self.sc.spec.get("mods", []):
+            if md and md["op"] == "delete" and not md.get("proxy"):
+                bs = self.sc.bspec[md["blk"]]
+                if md["at"] == 0 and md["to"] == len(bs["atoms"]) and sym.name in bs.get("syms", []) + bs.get("esyms", []):
+                    return "C09-label-of-deleted-block-unresolved-mid-rewrite"
+        return None
+
+
+PROP_CHECKS["C09"] = []
+
+
+def make_check_C09(tier):
+    from harness import rewrite_shapes
+    chk = run.Check("C09", tier)
+    chk.install_shims = install
+    chk.classify_exception = classify
+    for sid, spec in rewrite_shapes.shapes(tier) + rewrite_shapes.cfi_shapes(tier):
+        if crash_pattern(spec) or not spec.get("mods"):
+            continue
+        if tier == "quick" and len(spec["mods"]) < 2 and not (sid.startswith("text/jcc") or sid.startswith("callgraph")):
+            continue
+        chk.add(sid, h_batch_vs_single, params=dict(spec=spec), timeout=900)
+    chk.bounds = dict(BOUNDS)
+    chk.assumptions = list(ASSUME) + [
+        "one-at-a-time application runs from the highest listing position to the lowest (same-offset requests in reverse "
+        "registration order) so that pending requests keep their block and offset; the result is compared with the batch "
+        "result up to UUIDs and temporary-label suffixes",
+        "cache monitors wrap rewriting.insert/rewriting.delete (module attributes; no repository hook needed)"]
     return chk
